@@ -98,7 +98,7 @@ func (m *machine) store(addr value, v value) {
 		if p == nil {
 			m.rtPanic("invalid memory address or nil pointer dereference")
 		}
-		*p = copyVal(v)
+		assignInPlace(p, v)
 	case wordPtrV:
 		m.storeWord(p, v.(*Term))
 	case symElemPtr:
@@ -106,6 +106,28 @@ func (m *machine) store(addr value, v value) {
 	default:
 		panic(fmt.Sprintf("store to %T", addr))
 	}
+}
+
+// assignInPlace stores v into *p keeping the identity of the cells of
+// aggregates (field and element addresses taken earlier stay valid).
+func assignInPlace(p *value, v value) {
+	switch nv := v.(type) {
+	case structure:
+		if old, ok := (*p).(structure); ok && len(old) == len(nv) {
+			for i := range nv {
+				assignInPlace(&old[i], nv[i])
+			}
+			return
+		}
+	case array:
+		if old, ok := (*p).(array); ok && len(old) == len(nv) {
+			for i := range nv {
+				assignInPlace(&old[i], nv[i])
+			}
+			return
+		}
+	}
+	*p = copyVal(v)
 }
 
 func (m *machine) loadWord(p wordPtrV) value {
@@ -1063,7 +1085,9 @@ func (m *machine) callBuiltin(caller *frame, fn *ssa.Builtin, args []value, site
 			for i := 0; i < n; i++ {
 				tmp[i] = copyVal(s[i])
 			}
-			copy(dst, tmp)
+			for i := 0; i < n; i++ {
+				assignInPlace(&dst[i], tmp[i])
+			}
 			return c.BV(uint64(n), 64)
 		}
 	case "len":
@@ -1330,15 +1354,28 @@ func (m *machine) selectResult(instr *ssa.Select, idx int, recv value, recvOk bo
 	return r
 }
 
-// chooseN is an engine-internal nondeterministic choice 0..n-1 (forks).
+// chooseN is a nondeterministic choice 0..n-1: forks without the solver.
 func (m *machine) chooseN(n int, what string) int {
-	if n <= 1 {
-		return 0
+	v := 0
+	if m.di < len(m.prefix) {
+		d := m.prefix[m.di]
+		if d.Kind != 'c' {
+			panic(fmt.Sprintf("decision replay mismatch: want choice, have %c at %s", d.Kind, m.where()))
+		}
+		v = int(d.V)
+		m.di++
+	} else {
+		m.di++
+		for alt := 1; alt < n; alt++ {
+			p := make([]decision, len(m.trace), len(m.trace)+1)
+			copy(p, m.trace)
+			p = append(p, decision{Kind: 'c', V: uint64(alt)})
+			m.w.push(p)
+		}
 	}
-	t := m.newVar("choose", 64)
-	m.nondets[len(m.nondets)-1].Extra = n
-	m.addPC(m.ctx.ULt(t, m.ctx.BV(uint64(n), 64)))
-	return int(m.concretize(t, what))
+	m.trace = append(m.trace, decision{Kind: 'c', V: uint64(v)})
+	m.nondets = append(m.nondets, nondetRec{Name: fmt.Sprintf("n%d_choose", len(m.nondets)), Term: m.ctx.BV(uint64(v), 64), Kind: "choose", Extra: n})
+	return v
 }
 
 var _ = unsafe.Sizeof(0)
